@@ -1187,6 +1187,23 @@ def negotiate(
     return None
 
 
+def signature_algorithm_matches_key(signature_algorithm: int, public_key: Any) -> bool:
+    """
+    Return whether `public_key` can verify signatures made with
+    `signature_algorithm`.
+    """
+    if signature_algorithm == SignatureAlgorithm.ED25519:
+        return isinstance(public_key, ed25519.Ed25519PublicKey)
+    elif signature_algorithm == SignatureAlgorithm.ED448:
+        return isinstance(public_key, ed448.Ed448PublicKey)
+    elif signature_algorithm not in SIGNATURE_ALGORITHMS:
+        return False
+    elif SIGNATURE_ALGORITHMS[signature_algorithm][0] is None:
+        return isinstance(public_key, ec.EllipticCurvePublicKey)
+    else:
+        return isinstance(public_key, rsa.RSAPublicKey)
+
+
 def signature_algorithm_params(signature_algorithm: int) -> tuple:
     if signature_algorithm in (SignatureAlgorithm.ED25519, SignatureAlgorithm.ED448):
         return tuple()
@@ -1502,6 +1519,14 @@ class Context:
         if verify.algorithm not in self._signature_algorithms:
             raise AlertDecryptError(
                 "CertificateVerify has a signature algorithm we did not advertise"
+            )
+
+        if not signature_algorithm_matches_key(
+            verify.algorithm, self._peer_certificate.public_key()
+        ):
+            raise AlertIllegalParameter(
+                "CertificateVerify has a signature algorithm which does not match "
+                "the certificate's key"
             )
 
         try:
